@@ -82,3 +82,31 @@ func VerifHarness_C11_cd_decode_iff() {
 	vAssert(IsChannelData(raw) == ok, "C11.ischanneldata_agrees_with_decode")
 	vReach("end")
 }
+
+// Re-using a ChannelData value (or a caller-supplied Raw buffer) for a second, shorter message:
+// the padding of the second encoding is zero, nothing of the first message leaks.
+//
+//verif:props=C11,C05 unwind=40 bounds="first payload 0..12 bytes, second payload 0..12 bytes (all contents), same ChannelData value"
+func VerifHarness_C11_cd_reencode() {
+	d1 := vBytesN(vPick(0, 12))
+	d2 := vBytesN(vPick(0, 12))
+	c := ChannelData{Data: d1, Number: ChannelNumber(vU16())}
+	c.Encode()
+	c.Data = d2
+	c.Encode()
+	n := len(d2)
+	padded := (n + 3) / 4 * 4
+	vAssert(len(c.Raw) == 4+padded, "C11.reencoded_len")
+	vAssert(int(c.Raw[2])<<8|int(c.Raw[3]) == n, "C11.reencoded_length_field")
+	ok, pad := true, true
+	for i := 0; i < n; i++ {
+		ok = vAnd(ok, c.Raw[4+i] == d2[i])
+	}
+	for i := n; i < padded; i++ {
+		pad = vAnd(pad, c.Raw[4+i] == 0)
+	}
+	vAssert(ok, "C11.reencoded_payload")
+	vAssert(pad, "C11.reencoded_padding_is_zero")
+	vAssert(pad, "C05.padding_never_carries_other_data")
+	vReach("end")
+}
